@@ -21,6 +21,12 @@ CHECKS = {
             "TLA+ model (DispatcherOps.tla) model-checked by TLC + trace validation of real-code schedules (deterministic scheduler) by TLC"),
 }
 
+CHECKS["C10"] = (MC,
+    "For each of the five gates TLC exhausts the product of (implementation automaton extracted at check time from the compiled pattern in /repo, in the match mode read from the call site, composed with the call-site stripping) x (call-site domain automaton) x (grammar automaton hand-written from the ABNF in spec/LexOps.tla): the reachable product is finite, so the two inclusion invariants decide language equality for strings of every length (a decision procedure, not sampling). A counterexample is the shortest distinguishing string and is reported only if the real call site reproduces it. In addition every string up to length 4/5 over the byte-class alphabet, all single-byte insertions/replacements in valid sentences and pumped sentences go through the REAL call site and are judged by TLC against the same grammar (this also validates the extractor: disagreement = drift).",
+    "DESIGN.md 3.2, 6 (C10)",
+    "trusted: TLC, the grammar automata in LexOps.tla (reviewed against RFC 9110/9112 ABNF), the regex->DFA extractor (validated against the real re object through the call-site sweep on every run); numeric conversion after the gate is sampled on pumped strings only",
+    "language equality decided by TLC on the product automaton (TLA+ grammar DFA x extracted implementation DFA) + TLC-judged call-site sweep")
+
 EXP = "exploration"
 _chan_note = "trusted: TLC (judging), the simulated kernel and scheduler shims (Lock/Condition/select/poll/pipe semantics), the independent response lexer wv/httpclient.py; schedule coverage on the code is bounded (all schedules with <= 1 pre-emption up to a limit, sampled beyond)"
 _chan_tech = "deterministic schedule exploration of the real server (bounded DFS + PCT/pre-emption sampling) with TLC trace validation against the TLA+ property monitor Pipeline.tla"
